@@ -44,6 +44,19 @@ CLAIMED = {
         'under a move of the reference surface. A genuine defect (wrong sign passed by Panel.calc_kM) was repaired (fix: ca9efb9).',
    note='As C02; LAPACK eigh trusted for the invariance predicate.',
    technique='Lean 4 proof over regenerated model + translation validation + oracle', ref='4/C04'),
+ 'C11': dict(
+   text='Lean models of the C-level field kernels (cfuvw, cfwx, cfwy, cfg, cfstrain; full and w-only) REGENERATED from '
+        'clt_bardell_field*.pyx each run as per-point, per-dof increments; theorems: displacements are the Ritz series, slopes are '
+        'w,x / w,y of the same series, shape-function rows are the amplitude-derivative of that series, linear strains/curvatures '
+        'equal the contributions prescribed by the SAME Donnell operator tables that define the energy in C02 (flat and cylindrical '
+        'branch); exact statement of what the non-linear option adds (per-dof squares) with a kernel-checked counter-example to the '
+        'Donnell quadratic terms (known finding); hand model of the pad/reshape/map/ravel/trim chunking with the theorem '
+        'chunkedMap f = map f for every point list and every core count >= 1. Ties: V (summed increments vs running fuvw), driver '
+        'for the chunking model, exact series/Donnell oracle vs Panel.uvw/strain/stress incl. 1..16 threads and assembly slices. '
+        'One defect repaired (Panel.stress ignored NLterms), one recorded (non-linear strain terms).',
+   note='As C02; OpenMP scheduling/races outside the model (bit-identical outputs across core counts required as supporting evidence); '
+        'stress = F*strain checked numerically; conical panels rejected by fstrain.',
+   technique='Lean 4 proof over regenerated model + hand model (chunking) + oracle', ref='4/C11'),
  'C12': dict(
    text='Lean models of all 15 penalty-connection block kernels (5 kinds x 11/12/22) REGENERATED from kC*.pyx each run; 15 theorems: '
         'each block entry equals the second derivative of kt/2 Int|jump u|^2 + kr/2 Int(jump rotation)^2 for that kind (jump operator '
